@@ -73,6 +73,33 @@ def simp(t):
     return t
 
 
+def assign(t, env: dict):
+    """Replace the atoms named in env by constants."""
+    k = t[0]
+    if k == "atom":
+        return ("const", env[t[1]]) if t[1] in env else t
+    if k == "not":
+        return ("not", assign(t[1], env))
+    if k in ("and", "or"):
+        return (k, [assign(x, env) for x in t[1]])
+    if k == "exists":
+        return ("exists", t[1], t[2], assign(t[3], env), *t[4:])
+    return t
+
+
+def type_cases(t) -> list:
+    """The term under every outcome of its isinstance tests (dispatch written by hand); paths that yield False (raise) are dropped."""
+    names = sorted({a[1] for a in atoms_in(t) if a[1].startswith("isinstance(")})
+    if not names or len(names) > 4:
+        return [t]
+    out = []
+    for vals in itertools.product([False, True], repeat=len(names)):
+        v = simp(assign(t, dict(zip(names, vals))))
+        if v != ("const", False) and v not in out:
+            out.append(v)
+    return out or [t]
+
+
 def atoms_in(t) -> list:
     if t[0] == "atom":
         return [t]
@@ -449,17 +476,23 @@ class Terms:
         rets = [h for h in hits if h[1] == "return"]
         brks = [h for h in hits if h[1] == "break"]
         flgs = [h for h in hits if h[1] == "flag"]
-        if rets and not brks and not flgs and not s.orelse:
+        if s.orelse and not brks:
+            # no break: the else block simply runs after the loop
+            rest = list(s.orelse) + ([] if _exits(s.orelse) else rest)
+            s_orelse = []
+        else:
+            s_orelse = s.orelse
+        if rets and not brks and not flgs and not s_orelse:
             found = ("exists", vid, it, ("or", [("and", [c, v]) for c, _k, v in rets]), name)
             anyhit = ("exists", vid, it, ("or", [c for c, _k, _v in rets]), name)
             after = self.block(rest, ctx, depth + 1)
             return ("or", [found, ("and", [("not", anyhit), after])])
-        if brks and not rets and s.orelse:
+        if brks and not rets and s_orelse:
             anyhit = ("exists", vid, it, ("or", [c for c, _k, _v in brks]), name)
             miss = self.block(list(s.orelse) + ([] if _exits(s.orelse) else rest), ctx, depth + 1)
             hit = self.block(rest, ctx, depth + 1)
             return ("or", [("and", [anyhit, hit]), ("and", [("not", anyhit), miss])])
-        if flgs and not rets and not s.orelse:
+        if flgs and not rets and not s_orelse:
             out_env = dict(ctx.env)
             for c, _k, (fname, val) in flgs:
                 prev = out_env.get(fname)
@@ -583,44 +616,55 @@ def run(repo: Repo, res: Result, rule: str, filter_cls: ClassInfo, pred: str) ->
                 res.undecide(rule, f"{base_key}({label})", f"no `{pred}.register` overload for {label} found", where(filter_cls.methods[pred], filter_cls.methods[pred].node))
             continue
         pname = m.param_names[1] if len(m.param_names) > 1 else "?"
-        t = simp(tm.returns_truth(m, [("param", pname)]))
+        t0 = simp(tm.returns_truth(m, [("param", pname)]))
         ckey = f"{base_key}({label or 'obj'})::excluded iff re.match of some pattern"
         w = where(m, m.node)
-        ms = matches_in(t)
         bad = None
-        for mt in ms:
-            _k, kind, po, so, node, mfi, extra = mt
-            if kind != "match":
-                bad = f"`{norm(node, 70)}` applies the patterns with {kind}: " + ("a pattern matches anywhere in the path, regex exclusions are no longer anchored at the start" if kind == "search" else "a pattern must match the whole path, 'anchored at the start' patterns with an open end no longer exclude")
+        und = None
+        shown = show_term(t0)[:200]
+        for t in type_cases(t0):
+            ms = matches_in(t)
+            for mt in ms:
+                _k, kind, po, so, node, mfi, extra = mt
+                if kind != "match":
+                    bad = f"`{norm(node, 70)}` applies the patterns with {kind}: " + ("a pattern matches anywhere in the path, regex exclusions are no longer anchored at the start" if kind == "search" else "a pattern must match the whole path, 'anchored at the start' patterns with an open end no longer exclude")
+                    break
+                if extra:
+                    bad = f"`{norm(node, 70)}` passes extra arguments (flags / positions) to the match"
+                    break
+                so_ok = (so == ("param", pname) and want_subject in ("param", "either")) or (so == ("str", ("param", pname)) and want_subject in ("str", "either")) or (so == ("strish", ("param", pname)) and want_subject == "either")
+                if not so_ok:
+                    bad = f"`{norm(node, 70)}` matches the patterns against {show_origin(so)} instead of {'the path string itself' if want_subject != 'str' else 'str(path)'}: the path is no longer matched as a whole"
+                    break
+                if po[0] == "attr":
+                    und = und or f"`{norm(node, 70)}` applies one pre-built pattern {show_origin(po)} instead of the configured patterns one by one: whether it is their exact union is not decided"
+                elif po[0] != "var":
+                    und = und or f"`{norm(node, 70)}`: the pattern operand {show_origin(po)} is not an element of the configured collection"
+            if bad is not None:
                 break
-            if extra:
-                bad = f"`{norm(node, 70)}` passes extra arguments (flags / positions) to the match"
+            if not ms:
+                if atoms_in(t):
+                    und = und or f"the result `{show_term(t)[:160]}` contains no recognisable regex match"
+                    continue
+                bad = f"the result is `{show_term(t)[:120]}`: no pattern is applied"
                 break
-            so_ok = (so == ("param", pname) and want_subject in ("param", "either")) or (so == ("str", ("param", pname)) and want_subject in ("str", "either")) or (so == ("strish", ("param", pname)) and want_subject == "either")
-            if not so_ok:
-                bad = f"`{norm(node, 70)}` matches the patterns against {show_origin(so)} instead of {'the path string itself' if want_subject != 'str' else 'str(path)'}: the path is no longer matched as a whole"
-                break
-            if po[0] != "var":
-                bad = f"`{norm(node, 70)}` does not apply the patterns of the configured collection one by one (pattern operand: {show_origin(po)})"
-                break
-        if bad is None and not ms:
-            if atoms_in(t):
-                res.undecide(rule, ckey, f"the result `{show_term(t)[:160]}` contains no recognisable regex match", w)
+            if und is not None:
                 continue
-            bad = f"the result is `{show_term(t)[:120]}`: no pattern is applied"
-        if bad is None:
             # exact shape: exists p in self.A: match(p, subject)
             ok_shape = t[0] == "exists" and t[3][0] == "match" and t[3][2][:2] == ("var", t[1]) and t[2][0] == "attr"
             if not ok_shape:
                 if atoms_in(t):
-                    res.undecide(rule, ckey, f"the result `{show_term(t)[:200]}` is not of the form `exists p in <patterns>: match(p, path)` and contains parts the analysis cannot interpret", w)
+                    und = und or f"the result `{show_term(t)[:200]}` is not of the form `exists p in <patterns>: match(p, path)` and contains parts the analysis cannot interpret"
                     continue
                 bad = f"the result is `{show_term(t)[:200]}`, not `exists p in <all patterns>: re.match(p, path)`"
-            else:
-                attr_iter.add(t[2][1])
-                if t[3][4] is not None and lib_name(repo, t[3][5], t[3][4]) in REGEX_FUNCS:
-                    func_match = True
-        res.add(rule, ckey, bad is None, (f"`{show_term(t)[:160]}`" if bad is None else bad), w, kind="structural")
+                break
+            attr_iter.add(t[2][1])
+            if t[3][4] is not None and lib_name(repo, t[3][5], t[3][4]) in REGEX_FUNCS:
+                func_match = True
+        if bad is None and und is not None:
+            res.undecide(rule, ckey, und, w)
+            continue
+        res.add(rule, ckey, bad is None, (f"the result is `{shown}`" if bad is None else bad), w, kind="structural")
     # the pattern collection
     init = repo.lookup_method(filter_cls, "__init__")
     for box in sorted(attr_iter):
